@@ -641,6 +641,31 @@ def region_always_errs(body, blocks):
     return True
 
 
+def copy_root(b, l, depth=6):
+    """The local that `l` is a plain copy of: follows single-assignment moves/copies, also through a tuple that is built
+    once and taken apart again (`let (a, b) = helper(..)` after inlining)."""
+    for _ in range(depth):
+        ws = b.assigns_to(l)
+        if len(ws) != 1 or ws[0][1] == "term":
+            break
+        rv = ws[0][2]
+        if rv["k"] != "use" or rv["op"].get("k") not in ("copy", "move"):
+            break
+        op = rv["op"]
+        if not op["p"]:
+            l = op["l"]
+            continue
+        if len(op["p"]) == 1 and isinstance(op["p"][0], dict) and "f" in op["p"][0]:
+            tw = b.assigns_to(op["l"])
+            if len(tw) == 1 and tw[0][1] != "term" and tw[0][2]["k"] == "agg" and tw[0][2].get("ak") == "tuple":
+                comp = tw[0][2]["ops"][op["p"][0]["f"]] if op["p"][0]["f"] < len(tw[0][2]["ops"]) else None
+                if comp is not None and comp.get("k") in ("copy", "move") and not comp.get("p"):
+                    l = comp["l"]
+                    continue
+        break
+    return l
+
+
 def is_failure_term(t):
     """The term denotes an Err(..) / None-as-failure result: an Err aggregate, a value known to be the Err variant, the early
     return of `?`."""
